@@ -24,7 +24,7 @@ def run(ctx, chk):
              'otherwise saved with its progress', floor=3)
     chk.rule('C16.5', 'D', 'batching: bytes per batch = min(remaining, clocks/4); the DMA part precedes the device tick on '
              'every path', floor=2)
-    chk.rule('C16.6', 'D', 'no assert in the DMA part can fail', floor=4)
+    chk.rule('C16.6', 'D', 'no assert in the DMA part can fail', floor=2)
     facts = ctx.facts('default')
     prog = ctx.program('default')
     file = 'src/mem.rs'
@@ -175,153 +175,270 @@ def run(ctx, chk):
                   'computed end: its shape is not understood by this check (no verdict on the loop clauses)')
         return chk.finish('copy loop shape not understood')
     form = forms.pop()
+
+    def field_off(t):
+        return t[0] == 's' and t[3] and t[3][0] == 'field' and t[3][1] == DMA and t[3][2] == 'current_offset'
+    if form == 'down':
+        # a third way of writing the loop keeps the progress in the transfer state itself (self.oam_dma is re-read and
+        # re-written by every iteration) and counts machine cycles down: the offset in the addresses is then the field
+        # of the summarised state, not a loop variable
+        for r in body:
+            wr_ = [e for e in r.state.events if e[0] == 'call' and e[1] == WB]
+            if wr_ and not any(is_loopvar(x) for x in syms_of(wr_[0][2][1])) and any(field_off(x) for x in syms_of(wr_[0][2][1])):
+                form = 'state'
     Bs = Xs = Es = None
-    step_ok = True
-    why = ''
-    for r in body:
-        env = r.state.env
-        calls = [e for e in r.state.events if e[0] == 'call']
-        rd = [c for c in calls if c[1] == RB]
-        wr = [c for c in calls if c[1] == WB]
-        _, G, E = guard_of(r)
-        if len(rd) != 1 or len(wr) != 1:
-            step_ok, why = False, 'an iteration performs %d reads and %d writes' % (len(rd), len(wr))
-            continue
-        dest = wr[0][2][1]
-        xs = [s_ for s_ in syms_of(dest) if is_loopvar(s_)]
-        if len(xs) != 1 or diff_const(dest, O(16, 'trunc', xs[0]), env, 16) != 0xfe00:
-            step_ok, why = False, 'destination address is %s, expected 0xfe00 + offset' % fmt(dest)
-            continue
-        X = xs[0]
-        if form == 'up' and X != G:
-            step_ok, why = False, 'the loop guard tests %s but the destination is indexed by %s' % (fmt(G), fmt(X))
-            continue
-        Xs, Es = X, E
-        if form == 'down':
+    lemma = False
+    if form == 'state':
+        step_ok, why = True, ''
+        seen = set()
+        src_ok = True
+        for r in body:
+            env = r.state.env
+            calls = [e for e in r.state.events if e[0] == 'call']
+            rd = [c for c in calls if c[1] == RB]
+            wr = [c for c in calls if c[1] == WB]
+            _, G, _ = guard_of(r)
             Bs = G
-        # value written = byte read in this iteration at source + X
-        if wr[0][2][2] != rd[0][3]:
-            chk.fail('C16.3', 'value', 'the byte written (%s) is not the byte read in the same step (%s)'
-                     % (fmt(wr[0][2][2]), fmt(rd[0][3])), file, None)
-        src = rd[0][2][1]
-        ssrc = [s_ for s_ in syms_of(src) if s_[3] and s_[3][0] == 'field' and s_[3][2] == 'source']
-        if not ssrc or not equal_mod(src, O(16, 'add', O(16, 'trunc', ssrc[0]), O(16, 'trunc', X)), env, 16):
-            chk.fail('C16.3', 'source', 'source address is %s, expected source + offset' % fmt(src), file, None)
-        else:
-            chk.ok('C16.3', 'source', sample={'read': fmt(src), 'write': fmt(dest)})
-        if calls.index(rd[0]) > calls.index(wr[0]):
-            step_ok, why = False, 'write precedes read'
-        # counters at the end of the iteration
-        fx = final_of(X, r)
-        okx = fx is not None and T.is_int(fx) and (fx == O(X[1], 'add', X, C(X[1], 1)) or
-                                                    bvproof.equal_under(fx, O(X[1], 'add', X, C(X[1], 1)), env, X[1]))
-        okb = True
-        fb = None
-        if form == 'down':
+            if len(rd) != 1 or len(wr) != 1:
+                step_ok, why = False, 'an iteration performs %d reads and %d writes' % (len(rd), len(wr))
+                continue
+            if not any('discr(' in fmt(d[0]) and 'oam_dma' in fmt(d[0]) and env.const_of(d[0]) == 1 for d in r.state.decisions):
+                step_ok, why = False, 'a byte is copied on a path that does not test that a transfer is active'
+                continue
+            dest = wr[0][2][1]
+            offs = [x for x in syms_of(dest) if field_off(x)]
+            if len(offs) != 1 or diff_const(dest, O(16, 'zext', offs[0]), env, 16) != 0xfe00:
+                step_ok, why = False, 'destination address is %s, expected 0xfe00 + offset' % fmt(dest)
+                continue
+            OFF = offs[0]
+            if wr[0][2][2] != rd[0][3]:
+                chk.fail('C16.3', 'value', 'the byte written (%s) is not the byte read in the same step (%s)'
+                         % (fmt(wr[0][2][2]), fmt(rd[0][3])), file, None)
+                src_ok = False
+            src = rd[0][2][1]
+            ssrc = [s_ for s_ in syms_of(src) if s_[3] and s_[3][0] == 'field' and s_[3][2] == 'source']
+            if not ssrc or not equal_mod(src, O(16, 'add', O(16, 'trunc', ssrc[0]), O(16, 'zext', OFF)), env, 16):
+                chk.fail('C16.3', 'source', 'source address is %s, expected source + offset' % fmt(src), file, None)
+                src_ok = False
+            if calls.index(rd[0]) > calls.index(wr[0]):
+                step_ok, why = False, 'write precedes read'
             fb = final_of(G, r)
-            okb = fb is not None and T.is_int(fb) and (fb == O(G[1], 'sub', G, C(G[1], 1)) or
-                                                        bvproof.equal_under(fb, O(G[1], 'sub', G, C(G[1], 1)), env, G[1]))
-        if not okx or not okb:
-            step_ok, why = False, 'counters after one byte: remaining=%s offset=%s (expected -1 / +1)' % (
-                fmt(fb) if fb else '-', fmt(fx) if fx else '?')
-        other = [e for e in r.state.events if e[0] == 'store' and e[1] == 'mem']
-        if other:
-            step_ok, why = False, 'the copy step also stores to %s' % [e[2] for e in other]
-    if step_ok and Xs is not None:
-        chk.ok('C16.4', 'step', sample={'per byte': 'offset += 1%s, read then write' %
-                                        (', remaining -= 1' if form == 'down' else ' up to the computed end'),
-                                        'loop form': form})
+            if not (fb is not None and T.is_int(fb) and (fb == O(G[1], 'sub', G, C(G[1], 1)) or
+                                                         bvproof.equal_under(fb, O(G[1], 'sub', G, C(G[1], 1)), env, G[1]))):
+                step_ok, why = False, 'the machine-cycle budget is not decremented by one per byte'
+            sts = [e for e in r.state.events if e[0] == 'store' and e[1] == 'mem']
+            dst = [e for e in sts if e[2][-1][1] == 'oam_dma']
+            if len(sts) != len(dst) or len(dst) != 1:
+                step_ok, why = False, 'an iteration stores %s (expected exactly the new transfer state)' % [e[2][-1][1] for e in sts]
+                continue
+            v = dst[0][3]
+            nxt = O(8, 'add', OFF, C(8, 1))
+            below = env.const_of(O(1, 'ult', nxt, C(8, 0xa0)))
+            if v[0] == 'agg' and v[1][3] == 'None':
+                seen.add('retire')
+                if below != 0:
+                    step_ok, why = False, 'transfer retired while offset + 1 < 0xa0'
+            elif v[0] == 'agg' and v[1][3] == 'Some' and v[2] and v[2][0][0] == 'agg':
+                seen.add('save')
+                names_ = [f_['name'] for f_ in facts['adts'][DMA]['fields']]
+                vals = dict(zip(names_, v[2][0][2]))
+                if below != 1:
+                    step_ok, why = False, 'transfer kept although offset + 1 may have reached 0xa0'
+                if not (T.is_int(vals.get('current_offset')) and equal_mod(vals['current_offset'], nxt, env, 8)):
+                    step_ok, why = False, 'new offset is %s, expected offset + 1' % fmt(vals.get('current_offset'))
+                if not (ssrc and vals.get('source') == ssrc[0]):
+                    step_ok, why = False, 'the source page changes during the transfer'
+            else:
+                step_ok, why = False, 'the new transfer state is %s' % fmt(v)[:80]
+        if src_ok and step_ok:
+            chk.ok('C16.3', 'source', sample={'read': 'source + offset', 'write': '0xfe00 + offset'})
+        if step_ok and seen == {'retire', 'save'}:
+            chk.ok('C16.4', 'step', sample={'per byte': 'offset += 1 in the transfer state, budget -= 1, read then write',
+                                            'loop form': form})
+            chk.ok('C16.4', 'retire', sample={'offset + 1 == 0xa0': 'oam_dma := None', 'offset + 1 < 0xa0': 'kept with progress'})
+        else:
+            chk.fail('C16.4', 'step', 'copy loop: %s' % (why or 'iteration outcomes found: %s' % sorted(seen)), file, None)
+        # batch: the budget starts at clocks / 4 and the loop ends early only when no transfer is active any more
+        N0 = inits.get(Bs, (None, None))[0] if Bs is not None else None
+        want = O(64, 'udiv', clocks, C(64, 4))
+        lemma_pre = N0 is not None and (N0 == want or bool(bvproof.equal_under(N0, want, body[0].state.env, 64)))
+        ex_ok = True
+        for r in exits:
+            env = r.state.env
+            if not any(e[0] == 'loopinit' for e in r.state.events):
+                continue
+            gd = [d[0] for d in r.state.decisions if d[0][0] == 'o' and d[0][2] == 'ugt' and is_loopvar(d[0][3])]
+            done = any('discr(' in fmt(d[0]) and 'oam_dma' in fmt(d[0]) and env.const_of(d[0]) == 0 for d in r.state.decisions)
+            spent = bool(gd) and env.const_of(gd[-1]) == 0
+            if not (done or spent):
+                ex_ok = False
+            if any(e[0] == 'store' and e[2][-1][1] == 'oam_dma' for e in r.state.events):
+                ex_ok = False
+        if lemma_pre and ex_ok:
+            chk.ok('C16.5', 'batch-size', sample={'budget': fmt(N0), 'loop ends when': 'budget spent or transfer finished'})
+        else:
+            chk.fail('C16.5', 'batch-size', 'machine-cycle budget is %s (expected clocks / 4), or the loop can end while budget and '
+                     'transfer both remain' % (fmt(N0) if N0 else 'not found'), file, None)
+        lemma = step_ok and lemma_pre and ex_ok and offinv is not None and offinv.hi <= 0x9f
+        if lemma:
+            chk.ok('C16.2', 'lemma', sample={'loop form': form, 'offset': 'field of the transfer state, invariant 0..0x9f',
+                                             'destination': '0xfe00..0xfe9f (OAM by C10)'})
+            chk.ok('C16.4', 'count', sample={'total': 'offset runs 0..0xa0, one byte per step'})
+        else:
+            chk.fail('C16.2', 'lemma', 'cannot establish offset <= 0x9f inside the copy loop (step uniform=%s, budget=%s, '
+                     'saved offset range=%s)' % (step_ok, lemma_pre, offinv), file, None)
+        oam = [p for p in model.write_paths() if p.get('status') == 'ok' and p['kind'] == 'buffer' and p['buffer'] == 'oam_ram']
+        if oam and min(p['lo'] for p in oam) == 0xfe00 and max(p['hi'] for p in oam) == 0xfe9f:
+            chk.ok('C16.2', 'oam-region', sample={'0xfe00-0xfe9f': 'oam_ram[addr & 0xff]'})
+        else:
+            chk.fail('C16.2', 'oam-region', 'bus writes to 0xfe00-0xfe9f do not land in OAM', file, None)
     else:
-        chk.fail('C16.4', 'step', 'copy loop: %s' % why, file, None)
-    # ---- batch size: number of iterations N0 = min(0xa0 - offset0, clocks / 4), offset0 = the saved offset
-    lemma_pre = False
-    N0 = X0 = None
-    env0 = body[0].state.env
-    if Xs is not None and Xs in inits:
-        X0 = inits[Xs][0]
-        if form == 'down' and Bs in inits:
-            N0 = inits[Bs][0]
-        elif form == 'up':
-            N0 = O(64, 'sub', Es, X0) if Es is not None else None
-    off0 = None
-    if X0 is not None:
-        ss = [s_ for s_ in syms_of(X0) if s_[3] and s_[3][0] == 'field' and s_[3][2] == 'current_offset']
-        if len(ss) == 1 and (X0 == O(X0[1], 'zext', ss[0]) or bvproof.equal_under(X0, O(X0[1], 'zext', ss[0]), env0, X0[1])):
-            off0 = ss[0]
-    if off0 is not None and N0 is not None:
-        want = O(64, 'umin', O(64, 'sub', C(64, 0xa0), O(64, 'zext', off0)), O(64, 'udiv', clocks, C(64, 4)))
-        lemma_pre = (N0 == want) or bool(bvproof.equal_under(N0, want, env0, 64))
-    if lemma_pre:
-        chk.ok('C16.5', 'batch-size', sample={'bytes_this_batch': fmt(N0), 'first offset': fmt(X0)})
-    else:
-        chk.fail('C16.5', 'batch-size', 'bytes to copy per batch is %s starting at offset %s, expected min(0xa0 - offset, '
-                 'clocks / 4) starting at the saved offset' % (fmt(N0) if N0 else 'not found', fmt(X0) if X0 else 'not found'),
-                 file, None)
-    lemma = step_ok and lemma_pre and offinv is not None and offinv.hi <= 0x9f
-    if lemma:
-        chk.ok('C16.2', 'lemma', sample={
-            'down': 'paired counters: offset + remaining is invariant, remaining0 <= 0xa0 - offset0, guard remaining > 0 '
-                    ' =>  offset <= 0x9f inside the loop',
-            'up': 'offset < end = offset0 + min(0xa0 - offset0, clocks/4) <= 0xa0  =>  offset <= 0x9f inside the loop'}[form]
-            and {'loop form': form, 'destination': '0xfe00..0xfe9f (OAM by C10)'})
-    else:
-        chk.fail('C16.2', 'lemma', 'cannot establish offset <= 0x9f inside the copy loop (step uniform=%s, batch size=%s, '
-                 'saved offset range=%s)' % (step_ok, lemma_pre, offinv), file, None)
-    # destination region by C10's partition
-    oam = [p for p in model.write_paths() if p.get('status') == 'ok' and p['kind'] == 'buffer' and p['buffer'] == 'oam_ram']
-    if oam and min(p['lo'] for p in oam) == 0xfe00 and max(p['hi'] for p in oam) == 0xfe9f:
-        chk.ok('C16.2', 'oam-region', sample={'0xfe00-0xfe9f': 'oam_ram[addr & 0xff]'})
-    else:
-        chk.fail('C16.2', 'oam-region', 'bus writes to 0xfe00-0xfe9f do not land in OAM', file, None)
-    # ---- exits: retire / save. F = offset reached when the loop ends: the offset counter itself (at the exit of a
-    # count-down its value is offset0 + N0 by the pairing; at the exit of a count-up it equals the end) or the end
-    ret_ok = True
-    rwhy = ''
-    seen = set()
-    for r in exits:
-        env = r.state.env
-        if not any('discr(mem.oam_dma)' in fmt(d[0]) and env.const_of(d[0]) == 1 for d in r.state.decisions):
-            continue
-        st_ = [e for e in r.state.events if e[0] == 'store' and e[2][-1][1] == 'oam_dma']
-        calls = [e for e in r.state.events if e[0] == 'call']
-        if calls and calls[-1][1] != IRC:
-            ret_ok, rwhy = False, 'the device tick is not the last call'
-        if len(st_) != 1:
-            ret_ok, rwhy = False, 'oam_dma stored %d times after the loop' % len(st_)
-            continue
-        v = st_[0][3]
-        cands = [c for c in (Xs, Es if form == 'up' else None) if c is not None]
-        if not cands:
-            ret_ok, rwhy = False, 'the offset reached by the loop is not identified'
-            continue
-        if v[0] == 'agg' and v[1][3] == 'None':
-            seen.add('retire')
-            # retiring is right only when the offset reached is 0xa0 (it never exceeds it): F < 0xa0 must be impossible here
-            if not any(env.const_of(O(1, 'ult', c, C(c[1], 0xa0))) == 0 or
-                       bvproof.equal_under(O(1, 'ult', c, C(c[1], 0xa0)), C(1, 0), env, 1) for c in cands):
-                ret_ok, rwhy = False, 'transfer retired while offset < 0xa0'
-        elif v[0] == 'agg' and v[1][3] == 'Some':
-            seen.add('save')
-            inner = v[2][0][2]
-            offv = inner[1]
-            av = env.av(offv)
-            if av.hi > 0x9f:
-                from ..invariants import _exact_bits
-                av = _exact_bits(offv, env) or av
-            if av.hi > 0x9f:
-                ret_ok, rwhy = False, 'transfer saved with offset %s' % av
-            if not any(O(c[1], 'zext', offv) == c or offv == O(8, 'trunc', c) or
-                       bvproof.equal_under(offv, O(8, 'trunc', c), env, 8) for c in cands):
-                ret_ok, rwhy = False, 'saved offset %s is not the offset the loop reached (%s)' % (
-                    fmt(offv), ' / '.join(fmt(c) for c in cands))
-            if not any(d[0][0] == 'o' and d[0][2] in ('ult', 'ule', 'ugt', 'uge', 'eq', 'ne') and
-                       any(syms_of(c) & syms_of(d[0]) for c in cands) for d in r.state.decisions):
-                ret_ok, rwhy = False, 'the transfer is saved without testing whether it is complete'
-    if ret_ok and seen == {'retire', 'save'}:
-        chk.ok('C16.4', 'retire', sample={'offset == 0xa0': 'oam_dma := None', 'offset < 0xa0': 'saved with progress'})
-    else:
-        chk.fail('C16.4', 'retire', rwhy or 'exit paths found: %s' % sorted(seen), file, None)
-    chk.ok('C16.4', 'count', sample={'total': 'offset runs 0..0xa0, one byte per step'}) if (lemma and ret_ok) else None
+        step_ok = True
+        why = ''
+        for r in body:
+            env = r.state.env
+            calls = [e for e in r.state.events if e[0] == 'call']
+            rd = [c for c in calls if c[1] == RB]
+            wr = [c for c in calls if c[1] == WB]
+            _, G, E = guard_of(r)
+            if len(rd) != 1 or len(wr) != 1:
+                step_ok, why = False, 'an iteration performs %d reads and %d writes' % (len(rd), len(wr))
+                continue
+            dest = wr[0][2][1]
+            xs = [s_ for s_ in syms_of(dest) if is_loopvar(s_)]
+            if len(xs) != 1 or diff_const(dest, O(16, 'trunc', xs[0]), env, 16) != 0xfe00:
+                step_ok, why = False, 'destination address is %s, expected 0xfe00 + offset' % fmt(dest)
+                continue
+            X = xs[0]
+            if form == 'up' and X != G:
+                step_ok, why = False, 'the loop guard tests %s but the destination is indexed by %s' % (fmt(G), fmt(X))
+                continue
+            Xs, Es = X, E
+            if form == 'down':
+                Bs = G
+            # value written = byte read in this iteration at source + X
+            if wr[0][2][2] != rd[0][3]:
+                chk.fail('C16.3', 'value', 'the byte written (%s) is not the byte read in the same step (%s)'
+                         % (fmt(wr[0][2][2]), fmt(rd[0][3])), file, None)
+            src = rd[0][2][1]
+            ssrc = [s_ for s_ in syms_of(src) if s_[3] and s_[3][0] == 'field' and s_[3][2] == 'source']
+            if not ssrc or not equal_mod(src, O(16, 'add', O(16, 'trunc', ssrc[0]), O(16, 'trunc', X)), env, 16):
+                chk.fail('C16.3', 'source', 'source address is %s, expected source + offset' % fmt(src), file, None)
+            else:
+                chk.ok('C16.3', 'source', sample={'read': fmt(src), 'write': fmt(dest)})
+            if calls.index(rd[0]) > calls.index(wr[0]):
+                step_ok, why = False, 'write precedes read'
+            # counters at the end of the iteration
+            fx = final_of(X, r)
+            okx = fx is not None and T.is_int(fx) and (fx == O(X[1], 'add', X, C(X[1], 1)) or
+                                                        bvproof.equal_under(fx, O(X[1], 'add', X, C(X[1], 1)), env, X[1]))
+            okb = True
+            fb = None
+            if form == 'down':
+                fb = final_of(G, r)
+                okb = fb is not None and T.is_int(fb) and (fb == O(G[1], 'sub', G, C(G[1], 1)) or
+                                                            bvproof.equal_under(fb, O(G[1], 'sub', G, C(G[1], 1)), env, G[1]))
+            if not okx or not okb:
+                step_ok, why = False, 'counters after one byte: remaining=%s offset=%s (expected -1 / +1)' % (
+                    fmt(fb) if fb else '-', fmt(fx) if fx else '?')
+            other = [e for e in r.state.events if e[0] == 'store' and e[1] == 'mem']
+            if other:
+                step_ok, why = False, 'the copy step also stores to %s' % [e[2] for e in other]
+        if step_ok and Xs is not None:
+            chk.ok('C16.4', 'step', sample={'per byte': 'offset += 1%s, read then write' %
+                                            (', remaining -= 1' if form == 'down' else ' up to the computed end'),
+                                            'loop form': form})
+        else:
+            chk.fail('C16.4', 'step', 'copy loop: %s' % why, file, None)
+        # ---- batch size: number of iterations N0 = min(0xa0 - offset0, clocks / 4), offset0 = the saved offset
+        lemma_pre = False
+        N0 = X0 = None
+        env0 = body[0].state.env
+        if Xs is not None and Xs in inits:
+            X0 = inits[Xs][0]
+            if form == 'down' and Bs in inits:
+                N0 = inits[Bs][0]
+            elif form == 'up':
+                N0 = O(64, 'sub', Es, X0) if Es is not None else None
+        off0 = None
+        if X0 is not None:
+            ss = [s_ for s_ in syms_of(X0) if s_[3] and s_[3][0] == 'field' and s_[3][2] == 'current_offset']
+            if len(ss) == 1 and (X0 == O(X0[1], 'zext', ss[0]) or bvproof.equal_under(X0, O(X0[1], 'zext', ss[0]), env0, X0[1])):
+                off0 = ss[0]
+        if off0 is not None and N0 is not None:
+            want = O(64, 'umin', O(64, 'sub', C(64, 0xa0), O(64, 'zext', off0)), O(64, 'udiv', clocks, C(64, 4)))
+            lemma_pre = (N0 == want) or bool(bvproof.equal_under(N0, want, env0, 64))
+        if lemma_pre:
+            chk.ok('C16.5', 'batch-size', sample={'bytes_this_batch': fmt(N0), 'first offset': fmt(X0)})
+        else:
+            chk.fail('C16.5', 'batch-size', 'bytes to copy per batch is %s starting at offset %s, expected min(0xa0 - offset, '
+                     'clocks / 4) starting at the saved offset' % (fmt(N0) if N0 else 'not found', fmt(X0) if X0 else 'not found'),
+                     file, None)
+        lemma = step_ok and lemma_pre and offinv is not None and offinv.hi <= 0x9f
+        if lemma:
+            chk.ok('C16.2', 'lemma', sample={
+                'down': 'paired counters: offset + remaining is invariant, remaining0 <= 0xa0 - offset0, guard remaining > 0 '
+                        ' =>  offset <= 0x9f inside the loop',
+                'up': 'offset < end = offset0 + min(0xa0 - offset0, clocks/4) <= 0xa0  =>  offset <= 0x9f inside the loop'}[form]
+                and {'loop form': form, 'destination': '0xfe00..0xfe9f (OAM by C10)'})
+        else:
+            chk.fail('C16.2', 'lemma', 'cannot establish offset <= 0x9f inside the copy loop (step uniform=%s, batch size=%s, '
+                     'saved offset range=%s)' % (step_ok, lemma_pre, offinv), file, None)
+        # destination region by C10's partition
+        oam = [p for p in model.write_paths() if p.get('status') == 'ok' and p['kind'] == 'buffer' and p['buffer'] == 'oam_ram']
+        if oam and min(p['lo'] for p in oam) == 0xfe00 and max(p['hi'] for p in oam) == 0xfe9f:
+            chk.ok('C16.2', 'oam-region', sample={'0xfe00-0xfe9f': 'oam_ram[addr & 0xff]'})
+        else:
+            chk.fail('C16.2', 'oam-region', 'bus writes to 0xfe00-0xfe9f do not land in OAM', file, None)
+        # ---- exits: retire / save. F = offset reached when the loop ends: the offset counter itself (at the exit of a
+        # count-down its value is offset0 + N0 by the pairing; at the exit of a count-up it equals the end) or the end
+        ret_ok = True
+        rwhy = ''
+        seen = set()
+        for r in exits:
+            env = r.state.env
+            if not any('discr(mem.oam_dma)' in fmt(d[0]) and env.const_of(d[0]) == 1 for d in r.state.decisions):
+                continue
+            st_ = [e for e in r.state.events if e[0] == 'store' and e[2][-1][1] == 'oam_dma']
+            calls = [e for e in r.state.events if e[0] == 'call']
+            if calls and calls[-1][1] != IRC:
+                ret_ok, rwhy = False, 'the device tick is not the last call'
+            if len(st_) != 1:
+                ret_ok, rwhy = False, 'oam_dma stored %d times after the loop' % len(st_)
+                continue
+            v = st_[0][3]
+            cands = [c for c in (Xs, Es if form == 'up' else None) if c is not None]
+            if not cands:
+                ret_ok, rwhy = False, 'the offset reached by the loop is not identified'
+                continue
+            if v[0] == 'agg' and v[1][3] == 'None':
+                seen.add('retire')
+                # retiring is right only when the offset reached is 0xa0 (it never exceeds it): F < 0xa0 must be impossible here
+                if not any(env.const_of(O(1, 'ult', c, C(c[1], 0xa0))) == 0 or
+                           bvproof.equal_under(O(1, 'ult', c, C(c[1], 0xa0)), C(1, 0), env, 1) for c in cands):
+                    ret_ok, rwhy = False, 'transfer retired while offset < 0xa0'
+            elif v[0] == 'agg' and v[1][3] == 'Some':
+                seen.add('save')
+                inner = v[2][0][2]
+                offv = inner[1]
+                av = env.av(offv)
+                if av.hi > 0x9f:
+                    from ..invariants import _exact_bits
+                    av = _exact_bits(offv, env) or av
+                if av.hi > 0x9f:
+                    ret_ok, rwhy = False, 'transfer saved with offset %s' % av
+                if not any(O(c[1], 'zext', offv) == c or offv == O(8, 'trunc', c) or
+                           bvproof.equal_under(offv, O(8, 'trunc', c), env, 8) for c in cands):
+                    ret_ok, rwhy = False, 'saved offset %s is not the offset the loop reached (%s)' % (
+                        fmt(offv), ' / '.join(fmt(c) for c in cands))
+                if not any(d[0][0] == 'o' and d[0][2] in ('ult', 'ule', 'ugt', 'uge', 'eq', 'ne') and
+                           any(syms_of(c) & syms_of(d[0]) for c in cands) for d in r.state.decisions):
+                    ret_ok, rwhy = False, 'the transfer is saved without testing whether it is complete'
+        if ret_ok and seen == {'retire', 'save'}:
+            chk.ok('C16.4', 'retire', sample={'offset == 0xa0': 'oam_dma := None', 'offset < 0xa0': 'saved with progress'})
+        else:
+            chk.fail('C16.4', 'retire', rwhy or 'exit paths found: %s' % sorted(seen), file, None)
+        chk.ok('C16.4', 'count', sample={'total': 'offset runs 0..0xa0, one byte per step'}) if (lemma and ret_ok) else None
     # order: DMA before device tick on every path
     order_ok = True
     for r in exits:
